@@ -4,9 +4,10 @@ import Mfi.Driver.InterestD
 import Mfi.Driver.IntegrD
 import Mfi.Driver.BankD
 import Mfi.Driver.TokenD
+import Mfi.Driver.GateD
 open Mfi.Driver
 
-def handlers : List (String → List Int → Option String) := [fxOp, panicOp, irOp, igOp, bankOp, tokOp]
+def handlers : List (String → List Int → Option String) := [fxOp, panicOp, irOp, igOp, bankOp, tokOp, gateOp]
 
 def stepLine (line : String) : String :=
   match line.trimAscii.toString.splitOn " " with
